@@ -7,14 +7,28 @@ use crate::{
   shard, stk2,
 };
 
+/// governance fixtures of the secure leg (fixtures/c07sec/gov_<name>.p7s): what they protect is in make_fixtures.sh
+pub const GOVERNANCES: [&str; 8] = ["none", "sign", "encrypt", "origin", "signorigin", "payload", "submsg", "rtpsonly"];
+
 pub fn e2e_cases(args: &Args, ncases: u64, stream: u64) -> Acc {
+  e2e_cases_leg(args, ncases, stream, None)
+}
+
+/// `leg` = Some(("secure", path of the security build of this harness)): the same engine between participants
+/// that all carry the builtin security plugins, one governance document per scenario
+pub fn e2e_cases_leg(args: &Args, ncases: u64, stream: u64, leg: Option<(String, std::path::PathBuf)>) -> Acc {
   let seed = args.seed;
   let replay_case = crate::replay_index(args);
-  shard::run_sharded(args, ncases + PINNED, args.threads(), "C07", move |i, acc, br| {
+  let fixtures = args.verif_dir.join("fixtures/c07sec");
+  shard::run_sharded_with(args, ncases + PINNED, args.threads(), "C07", leg, move |i, acc, br| {
     if replay_case.map_or(false, |rc| rc != i) {
       return;
     }
     install_probe_logger();
+    if std::env::var("VERIF_LEG").map_or(false, |l| l == "secure") {
+      secure_case(seed, stream, i, ncases, &fixtures, acc, br);
+      return;
+    }
     let domain: u16 = std::env::var("VERIF_DOMAIN").ok().and_then(|s| s.parse().ok()).unwrap_or(50);
     let mut rng = Rng::derive(seed, stream, i);
     let sc = if i < ncases { stk2::gen_scenario(&mut rng) } else { pinned_scenario(PINNED_IDS[(i - ncases) as usize]) };
@@ -64,6 +78,49 @@ pub fn e2e_cases(args: &Args, ncases: u64, stream: u64) -> Acc {
   })
 }
 
+fn secure_case(seed: u64, stream: u64, i: u64, ncases: u64, fixtures: &std::path::Path, acc: &mut Acc, br: &shard::Bracket) {
+  let domain: u16 = std::env::var("VERIF_DOMAIN").ok().and_then(|s| s.parse().ok()).unwrap_or(50);
+  let mut rng = Rng::derive(seed, stream, i);
+  let sc = if i < ncases { stk2::gen_scenario(&mut rng) } else { pinned_scenario(PINNED_IDS[(i - ncases) as usize]) };
+  // the governance is drawn from a stream of its own, so the scenario is the one the same index has without security
+  let gov = if i < ncases { GOVERNANCES[Rng::derive(seed, stream ^ 0x5ec0_0000, i).below(GOVERNANCES.len() as u64) as usize] } else { GOVERNANCES[1 + ((i - ncases) as usize + seed as usize) % (GOVERNANCES.len() - 1)] };
+  // developer aid: replay a case under another governance document
+  let forced = std::env::var("VERIF_FORCE_GOV").ok();
+  let gov: &str = forced.as_deref().and_then(|f| GOVERNANCES.iter().find(|g| **g == f).copied()).unwrap_or(gov);
+  let tag = json!({"seed": seed, "stream": stream, "index": i, "engine": "stack-real-participants", "leg": "secure", "governance": gov});
+  br.set_case(json!({"case": tag, "scenario": stk2::scenario_json(&sc)}));
+  // violations of this leg carry the leg in their signature, so that a finding of the secure stack is not taken
+  // for one of the plain stack
+  let mut sub = Acc::default();
+  // developer aid: VERIF_FORCE_GOV=plain runs the scenario of this index between participants without security
+  let sec = if forced.as_deref() == Some("plain") { None } else { Some((gov.to_string(), fixtures.to_path_buf())) };
+  let out = stk2::run_scenario_sec(&sc, sec, domain, &mut sub, &tag, i);
+  for v in sub.violations.iter_mut() {
+    v.signature = v.signature.replacen("C07/", "C07/secure:", 1);
+  }
+  acc.merge(sub);
+  acc.evaluations += 1;
+  acc.count("secure:pairs_expected_to_match", out.pairs_expected);
+  acc.count("secure:status_events_observed", out.match_events);
+  acc.count("secure:unmatches_observed_after_deletion", out.unmatch_events);
+  acc.count("secure:items_written", out.items_written);
+  acc.count("secure:values_received_and_compared", out.items_received);
+  acc.count("secure:disposes_received", out.disposes_received);
+  acc.count("secure:fragmented_items_written", out.frag_items);
+  acc.count("secure:history_items_received_by_transient_local_late_joiner", out.late_history_items);
+  acc.count("secure:datagrams_dropped_by_loss_policy", out.dropped);
+  acc.count("secure:outages_longer_than_the_lease", out.partitions);
+  if out.completed {
+    acc.count("secure:scenarios_completed", 1);
+    acc.count(&format!("secure:scenarios_completed_governance_{gov}"), 1);
+    let bucket = |x: f64| if x < 1.0 { "under_1s" } else if x < 3.0 { "1_to_3s" } else if x < 10.0 { "3_to_10s" } else if x < 40.0 { "10_to_40s" } else { "over_40s_wall" };
+    acc.count(&format!("secure:longest_match_wait_{}", bucket(out.max_match_s)), 1);
+    if out.items_received >= 2 {
+      acc.distinct.insert(out.sig ^ crate::prng::fnv64(gov.as_bytes()));
+    }
+  }
+}
+
 pub fn run_c07(args: &Args) -> i32 {
   let mut rep = Report::new(
     args,
@@ -73,7 +130,58 @@ pub fn run_c07(args: &Args) -> i32 {
   rep.assume("a KeepAll writer retains at least the last 32 samples for TransientLocal late joiners (the implementation's resource limit); more than that is not demanded");
   rep.assume("'later samples' for a Volatile reader: a sample counts as earlier only with evidence: some reader anywhere had already taken it when create_datareader was called, or write() had returned more than 5 s before (write() only queues the sample for the participant's event loop); such a sample must not be delivered; anything else may or may not arrive");
   let ncases = args.scale(64, 3000);
-  let acc = e2e_cases(args, ncases, 0x0707);
+  let mut acc = Acc::default();
+  let nsec = args.scale(25, 1200);
+  if std::env::var("VERIF_LEG").map_or(false, |l| l == "secure") {
+    // a shard of the secure leg (child process of the security build): same stream and size as its parent uses below
+    let _ = e2e_cases_leg(args, nsec, 0x0708, None);
+  }
+  // developer aid: VERIF_ONLY_LEG=secure runs the secure leg alone (the evidence then says so: required plain counters are missing)
+  let replay_leg = crate::replay_leg(args).or_else(|| std::env::var("VERIF_ONLY_LEG").ok());
+  if replay_leg.as_deref().map_or(true, |l| l.is_empty()) {
+    acc.merge(e2e_cases(args, ncases, 0x0707));
+  }
+  // second leg: every participant carries the builtin security plugins (security build of this harness)
+  match std::env::var("VERIF_SEC_EXE").ok().map(std::path::PathBuf::from).filter(|p| p.exists()) {
+    Some(exe) if replay_leg.as_deref().map_or(true, |l| l == "secure") => {
+      acc.merge(e2e_cases_leg(args, nsec, 0x0708, Some(("secure".to_string(), exe))));
+      rep.require("secure:scenarios_completed", 12);
+      rep.require("secure:values_received_and_compared", 100);
+    }
+    Some(_) => {}
+    None => acc.inconclusive.push("security build of the harness not found (VERIF_SEC_EXE): secure leg not run".to_string()),
+  }
+  if replay_leg.as_deref().map_or(false, |l| l == "secure") {
+    return rep.finish(acc);
+  }
+  // third leg, engine level (no sockets, no threads): a best-effort Volatile reader that joins late next to a
+  // reliable reader of the same writer in one participant; the writer repairs earlier samples to the reliable one
+  if replay_leg.as_deref().map_or(true, |l| l == "late-best-effort-sibling") {
+    let seed = args.seed;
+    let replay_case = crate::replay_index(args);
+    let n = args.scale(6000, 300_000);
+    acc.merge(crate::ctx::par_cases(args.threads(), n, |i, acc| {
+      if replay_case.map_or(false, |rc| rc != i) {
+        return;
+      }
+      let mut rng = Rng::derive(seed, 0x0709, i);
+      let case = crate::sib::gen_case_kind(&mut rng, true);
+      let tag = json!({"seed": seed, "stream": 0x0709, "index": i, "engine": "wire-two-local-readers", "leg": "late-best-effort-sibling"});
+      let o = crate::sib::run_case(&case, acc, &tag);
+      acc.evaluations += 1;
+      acc.count("sibling:cases", 1);
+      acc.count("sibling:samples_handed_to_the_best_effort_late_joiner", o.be_handed);
+      acc.count("sibling:of_those_addressed_to_the_other_reader_only_not_judged", o.be_handed_not_sent_to_it);
+      acc.count("sibling:samples_handed_to_the_reliable_reader", o.handed - o.be_handed);
+      if o.nontrivial && o.be_handed > 0 {
+        acc.distinct.insert(o.sig);
+      }
+    }));
+    rep.require("sibling:samples_handed_to_the_best_effort_late_joiner", 1000);
+    if replay_leg.is_some() {
+      return rep.finish(acc);
+    }
+  }
   rep.require("e2e_scenarios_completed", 20);
   rep.require("e2e_values_received_and_compared", 200);
   rep.require("e2e_unmatches_observed_after_deletion", 5);
@@ -201,6 +309,48 @@ pub fn pinned_scenario(which: u64) -> stk2::Sc7 {
       partition_only: None,
       healed_items: vec![],
     },
+    11 => Sc7 {
+      // a best-effort Volatile reader next to a TransientLocal reader of the same TransientLocal writer: the history
+      // sample repaired to the TransientLocal one (addressed to it alone) is also handed to the best-effort one,
+      // because best-effort DataReaders read the topic's shared cache by reception time
+      with_key: false,
+      nparts: 2,
+      eps: vec![
+        EpSpec { tl: true, ..w.clone() },
+        EpSpec { tl: true, ..r.clone() },
+        EpSpec { reliable: false, ..r.clone() },
+        EpSpec { part: 0, tl: true, ..r.clone() },
+        EpSpec { tl: true, ..r.clone() },
+      ],
+      acts: vec![
+        Act::Part(0),
+        Act::Part(1),
+        Act::Topic(0),
+        Act::PubSub(0),
+        Act::Ep(3),
+        Act::Ep(0),
+        Act::Early(0, vec![Item::Val { key: 0, n: 0, len: 10 }]),
+        Act::Sleep(1500),
+        Act::Topic(1),
+        Act::PubSub(1),
+        Act::Ep(2),
+        Act::Sleep(300),
+        Act::Ep(1),
+      ],
+      loss_disc_ppm: 0,
+      loss_ppm: 0,
+      main: vec![(0, Item::Val { key: 0, n: 1, len: 10 })],
+      late: 4,
+      late_new_part: false,
+      post: vec![(0, Item::Val { key: 0, n: 2, len: 10 })],
+      del: Del::Endpoint(1),
+      after: vec![(0, Item::Val { key: 0, n: 3, len: 10 })],
+      newcomer: None,
+      newcomer_items: vec![],
+      partition_s: 0,
+      partition_only: None,
+      healed_items: vec![],
+    },
     10 => Sc7 {
       // the second constellation of the open shared-TopicCache finding: a TransientLocal reader and a Volatile
       // reader of one TransientLocal writer on one participant, early samples, then traffic under 10 % loss
@@ -303,7 +453,7 @@ pub fn pinned_scenario(which: u64) -> stk2::Sc7 {
 }
 
 /// the pinned scenarios that are part of every run (5, 6 and 10 are developer probes only; 10 is an attempt at the second open constellation that does not reproduce it reliably)
-pub const PINNED_IDS: [u64; 7] = [1, 2, 3, 4, 7, 8, 9];
+pub const PINNED_IDS: [u64; 8] = [1, 2, 3, 4, 7, 8, 9, 11];
 pub const PINNED: u64 = PINNED_IDS.len() as u64;
 
 /// developer aid: one pinned scenario (VERIF_PROBE=1..4) with optional library logging (VERIF_PROBE_GREP)
@@ -312,7 +462,9 @@ pub fn run_probe(_args: &Args) -> i32 {
   let sc = pinned_scenario(which);
   install_probe_logger();
   let mut acc = Acc::default();
-  let out = stk2::run_scenario(&sc, 99, &mut acc, &json!({"index": 0}), 0);
+  // VERIF_PROBE_SEC=<governance fixture name> (security build only): the same scenario between secured participants
+  let sec = std::env::var("VERIF_PROBE_SEC").ok().map(|g| (g, _args.verif_dir.join("fixtures/c07sec")));
+  let out = stk2::run_scenario_sec(&sc, sec, 99, &mut acc, &json!({"index": 0}), 0);
   println!("completed={} violations={:?} inconclusive={:?} match_s={} deliver_s={}", out.completed, acc.violations.iter().map(|v| (&v.signature, &v.detail)).collect::<Vec<_>>(), acc.inconclusive, out.max_match_s, out.max_deliver_s);
   0
 }
